@@ -194,6 +194,10 @@ pub fn check_ops(ops: &[Op]) -> CaseResult {
     }
     for op in [Op::Cwd, Op::Abs("rel/x".into()), Op::Abs("..".into()), Op::Exists(".".into()), Op::Mkfile("late-probe".into()), Op::Paths(".".into()), Op::AllPaths("/".into())] {
         let (a, b) = (apply(&direct, &op), apply(&late, &op));
+        // listings and probes below the cwd depend on the tree: skipped once the two instances drifted apart
+        if any_partial && !matches!(op, Op::Cwd | Op::Abs(_)) {
+            continue;
+        }
         if norm(&a) != norm(&b) {
             return Err(Failure::new(format!("upcast|then-{}-differs", op.name()), format!("after the history + upcast: {:?} direct {:?} upcast {:?}", op, a, b)));
         }
